@@ -37,11 +37,11 @@ type c10Case struct {
 	Opt []bool `json:"opt,omitempty"`
 	// ScopeOnly[k] (with Opt[k]): key k's templates are options templates whose v fields are ALL scope fields
 	// (scope field count == field count: valid, and the shape of every "per-interface name" style option)
-	ScopeOnly []bool `json:"scope_only,omitempty"`
-	AnnYield [][]int     `json:"ann_yield"`
-	Readers  []c10Reader `json:"readers"`
-	Dumpers  []int       `json:"dumpers"` // per dumper: number of dumps
-	Rounds   int         `json:"rounds"`  // the whole plan is executed this many times on fresh caches
+	ScopeOnly []bool      `json:"scope_only,omitempty"`
+	AnnYield  [][]int     `json:"ann_yield"`
+	Readers   []c10Reader `json:"readers"`
+	Dumpers   []int       `json:"dumpers"` // per dumper: number of dumps
+	Rounds    int         `json:"rounds"`  // the whole plan is executed this many times on fresh caches
 }
 
 const c10Rule = "case = concurrency plan: protocol (ipfix | nf9), 2..6 (exporter,id) keys (disjoint, same-exporter, same-shard and full-hash-colliding pairs), one announcer goroutine per key publishing template versions 1..V " +
